@@ -273,6 +273,11 @@ fn a4(a: u8, b: u8, c: u8, d: u8, port: u16) -> String {
     format!("4:{:02x}{:02x}{:02x}{:02x}:{}", a, b, c, d, port)
 }
 
+/// the IPv4-mapped IPv6 form `::ffff:a.b.c.d` (a different socket address than the plain IPv4 one with the same octets)
+fn mapped4(a: u8, b: u8, c: u8, d: u8, port: u16) -> String {
+    format!("6:00000000000000000000ffff{:02x}{:02x}{:02x}{:02x}:{}", a, b, c, d, port)
+}
+
 fn a6(last: u16, port: u16) -> String {
     format!("6:20010db8000000000000000000000{:03x}:{}", last & 0xfff, port)
 }
@@ -442,6 +447,9 @@ fn script_handshake(rng: &mut Rng, tier: Tier, f: &mut dyn FnMut(&str) -> String
             cls[i - 1].addr.clone()
         } else if rng.chance(1, 4) {
             a6(0x10 + i as u16, 4000 + i as u16)
+        } else if rng.chance(1, 5) {
+            // the mapped twin of the plain address another client of this case may have
+            mapped4(10, 0, 0, 1 + rng.below(2) as u8, 4000 + rng.below(2) as u16)
         } else {
             a4(10, 0, 0, 1 + i as u8, 4000 + i as u16)
         };
@@ -1020,7 +1028,7 @@ fn script_session(rng: &mut Rng, tier: Tier, f: &mut dyn FnMut(&str) -> String) 
         spec.timeout = rng.pick(&[1, 2, 5]);
         spec.expire = now_s + 30;
         spec.seal_expire = spec.expire;
-        let addr = a4(10, 1, 0, 1 + i as u8, 4100 + i as u16);
+        let addr = if i == 1 && rng.chance(1, 4) { mapped4(10, 1, 0, 1, 4100) } else { a4(10, 1, 0, 1 + i as u8, 4100 + i as u16) };
         if let Some(cl) = new_client(&mut sc, i, &addr, &spec, srv.now_us) {
             cls.push(cl);
         }
@@ -1493,7 +1501,7 @@ fn forged_request(rng: &mut Rng, genuine: &[u8], proto: u64, now_s: u64) -> Vec<
 
 fn script_attacker(rng: &mut Rng, _tier: Tier, f: &mut dyn FnMut(&str) -> String) {
     let mut sc = Sc::new(f);
-    let scenario = rng.below(18);
+    let scenario = rng.below(19);
     let max = match scenario {
         3 => 1,
         17 => 3,
@@ -1513,7 +1521,8 @@ fn script_attacker(rng: &mut Rng, _tier: Tier, f: &mut dyn FnMut(&str) -> String
     };
     let now_s = srv.now_us / 1_000_000;
     let hosts = srv.addrs.join(",");
-    let a = [a4(10, 3, 0, 1, 4301), a4(10, 3, 0, 2, 4302), a6(0x33, 4303)];
+    // (now and then the second client sits at the IPv4-mapped IPv6 twin of the first one's address: same octets and port)
+    let a = [a4(10, 3, 0, 1, 4301), if rng.chance(1, 3) { mapped4(10, 3, 0, 1, 4301) } else { a4(10, 3, 0, 2, 4302) }, a6(0x33, 4303)];
     let mut specs: Vec<TokSpec> = vec![];
     for i in 0..3u64 {
         let mut spec = base_spec(rng, 900 + i, srv.proto, srv.key, now_s, &hosts);
@@ -2209,6 +2218,35 @@ fn script_attacker(rng: &mut Rng, _tier: Tier, f: &mut dyn FnMut(&str) -> String
                 sc.op(&format!("srv-updc 0 {}", cls[i].tok.spec.id));
             }
         }
+        18 => {
+            // A's request is answered, the challenge is lost; an eavesdropper replays the clear-text request byte for byte
+            // from B: nothing, and nothing changes (the token stays bound to A); A retransmits and is challenged again;
+            // the replay from B again: nothing; A completes
+            let b = a4(10, 3, 0, 9, 4309);
+            srv_rx(&mut sc, &a[0], &reqs[0]);
+            let n = rng.range(1, 3);
+            for _ in 0..n {
+                hostile_srv(&mut sc, "hostile", &b, &reqs[0]);
+            }
+            if rng.chance(1, 2) {
+                sc.op(&format!("srv-upd 0 {}", rng.pick(&[1_000u64, 250_000, 1_000_000])));
+            }
+            let ch = match sc.opd("cli-upd 0 250000") {
+                (_, Some(k)) => {
+                    let rq = sc.hist[k].bytes.clone();
+                    srv_rx(&mut sc, &a[0], &rq).1
+                }
+                _ => None,
+            };
+            sc.op("srv-dump 0");
+            hostile_srv(&mut sc, "hostile", &b, &reqs[0]);
+            hostile_srv(&mut sc, "hostile", &a[2], &reqs[0]);
+            if let Some(ch) = ch {
+                answer_challenge(&mut sc, 0, &a[0], &ch, None);
+            }
+            sc.op("srv-dump 0");
+            hostile_srv(&mut sc, "hostile", &b, &reqs[0]);
+        }
         4 => {
             // connected session 0; the attacker (owner of session 1) injects packets sealed with its own
             // keys from the victim's address and replays the victim's handshake
@@ -2810,7 +2848,7 @@ fn script_wire(rng: &mut Rng, tier: Tier, f: &mut dyn FnMut(&str) -> String) {
 // profile 0: nc-regress — one fixed op list per repaired defect (deterministic, run on every check)
 // =============================================================================================
 
-const REGRESS_CASES: usize = 41;
+const REGRESS_CASES: usize = 44;
 
 fn regress_script(case: usize, f: &mut dyn FnMut(&str) -> String) {
     let mut rng = Rng::new(0xD1CE + case as u64);
@@ -4159,6 +4197,104 @@ fn regress_script(case: usize, f: &mut dyn FnMut(&str) -> String) {
                 }
             }
             sc.op("cli-dump 0");
+        }
+        // request from A, challenge lost; the clear-text request replayed from B: nothing, no change; A retransmits: a
+        // challenge; replay from B: nothing; A completes; replay from B once more: nothing
+        41 => {
+            let b = a4(10, 9, 0, 77, 4977);
+            if let (_, Some(k)) = sc.opd("cli-upd 0 0") {
+                let req = sc.hist[k].bytes.clone();
+                sc.op(&format!("srv-rx 0 {} {}", cls[0].addr, hex(&req)));
+                hostile_srv(&mut sc, "hostile", &b, &req);
+                sc.op("srv-upd 0 250000");
+                let mut chal: Option<Vec<u8>> = None;
+                if let (_, Some(k)) = sc.opd("cli-upd 0 250000") {
+                    let again = sc.hist[k].bytes.clone();
+                    if let (_, Some(k)) = sc.opd(&format!("srv-rx 0 {} {}", cls[0].addr, hex(&again))) {
+                        chal = Some(sc.hist[k].bytes.clone());
+                    }
+                }
+                hostile_srv(&mut sc, "hostile", &b, &req);
+                if let Some(ch) = chal {
+                    answer_challenge(&mut sc, 0, &cls[0].addr.clone(), &ch, Some("expect-connected"));
+                }
+                hostile_srv(&mut sc, "hostile", &b, &req);
+                sc.op("srv-q 0 40");
+            }
+        }
+        // a client at 10.9.0.1:4901 and one at its IPv4-mapped IPv6 twin [::ffff:10.9.0.1]:4901, both connected: every
+        // lookup reports the address the session was authenticated from
+        42 => {
+            let mut spec = base_spec(rng, 66, proto, key, 5, &hosts);
+            spec.expire = 35;
+            spec.seal_expire = 35;
+            spec.timeout = 5;
+            let twin = mapped4(10, 9, 0, 1, 4901);
+            let third = new_client(&mut sc, 5, &twin, &spec, 5_000_000);
+            fast_connect(&mut sc, &cls[0]);
+            if let Some(c) = third {
+                fast_connect(&mut sc, &c);
+                sc.op("srv-dump 0");
+                for id in [40u64, 66, 40] {
+                    sc.op(&format!("srv-q 0 {}", id));
+                }
+                for (h, id, addr) in [(0u64, 40u64, cls[0].addr.clone()), (5, 66, c.addr.clone())] {
+                    if let (_, Some(k)) = sc.opd(&format!("srv-pay 0 {} 6869", id)) {
+                        let d = sc.hist[k].bytes.clone();
+                        sc.op("note expect-payload");
+                        sc.op(&format!("cli-rx {} {}", h, hex(&d)));
+                    }
+                    if let (_, Some(k)) = sc.opd(&format!("cli-pay {} 686f", h)) {
+                        let d = sc.hist[k].bytes.clone();
+                        sc.op("note expect-payload");
+                        sc.op(&format!("srv-rx 0 {} {}", addr, hex(&d)));
+                    }
+                }
+                sc.op("srv-disc 0 40");
+                sc.op("srv-q 0 66");
+                sc.op("srv-q 0 40");
+            }
+        }
+        // the application kicks an id whose handshake is half-open (nothing happens), the client retransmits, completes,
+        // exchanges a few packets and is kicked again: all of it under one server-to-client key
+        43 => {
+            if let (_, Some(k)) = sc.opd("cli-upd 0 0") {
+                let req = sc.hist[k].bytes.clone();
+                sc.op(&format!("srv-rx 0 {} {}", cls[0].addr, hex(&req)));
+                let (_, e) = sc.opd("srv-disc 0 40");
+                if let Some(k) = e {
+                    // (whatever the server hands the application is sent)
+                    let d = sc.hist[k].bytes.clone();
+                    sc.op(&format!("cli-rx 0 {}", hex(&d)));
+                }
+                sc.op("srv-dump 0");
+                sc.op("srv-upd 0 250000");
+                if let (_, Some(k)) = sc.opd("cli-upd 0 250000") {
+                    let again = sc.hist[k].bytes.clone();
+                    if let (_, Some(k)) = sc.opd(&format!("srv-rx 0 {} {}", cls[0].addr, hex(&again))) {
+                        let ch = sc.hist[k].bytes.clone();
+                        answer_challenge(&mut sc, 0, &cls[0].addr.clone(), &ch, Some("expect-connected"));
+                    }
+                }
+                for p in ["61", "6262"] {
+                    if let (_, Some(k)) = sc.opd(&format!("srv-pay 0 40 {}", p)) {
+                        let d = sc.hist[k].bytes.clone();
+                        sc.op("note expect-payload");
+                        sc.op(&format!("cli-rx 0 {}", hex(&d)));
+                    }
+                }
+                sc.op("srv-upd 0 250000");
+                if let (_, Some(k)) = sc.opd("srv-updc 0 40") {
+                    let d = sc.hist[k].bytes.clone();
+                    sc.op(&format!("cli-rx 0 {}", hex(&d)));
+                }
+                if let (_, Some(k)) = sc.opd("srv-disc 0 40") {
+                    let d = sc.hist[k].bytes.clone();
+                    sc.op(&format!("cli-rx 0 {}", hex(&d)));
+                }
+                sc.op("cli-q 0");
+                sc.op("srv-dump 0");
+            }
         }
         // sequence 2^64-1 (the window's EMPTY sentinel) from the owner of a session
         _ => {
@@ -5550,6 +5686,8 @@ fn oracle_table(ops: &[String], outs: &[String]) -> Option<OracleFail> {
     let mut how: HashMap<(String, u64), (String, String)> = HashMap::new();
     let mut protos: HashMap<String, u64> = HashMap::new();
     let mut tokens: Option<Vec<TokInfo>> = None;
+    // (server, id) -> address client_addr(id) reported since the last connect / disconnect event on that server
+    let mut reported: HashMap<(String, u64), String> = HashMap::new();
     for i in 0..ops.len().min(outs.len()) {
         let t = toks(&ops[i]);
         if t.len() < 2 {
@@ -5586,6 +5724,7 @@ fn oracle_table(ops: &[String], outs: &[String]) -> Option<OracleFail> {
                     if o.len() == 5 {
                         how.insert((s.clone(), id), (o[2].to_string(), o[3].chars().take(16).collect()));
                     }
+                    reported.retain(|k, _| k.0 != s);
                     // the bound, judged on the event stream against the limit reconstructed from the ops
                     // (srv-new / srv-setmax) — not against what the implementation reports about itself
                     if let (Some(false), Some(m), Some(c)) = (lowered.get(&s), cur_max.get(&s), connected.get(&s)) {
@@ -5604,6 +5743,7 @@ fn oracle_table(ops: &[String], outs: &[String]) -> Option<OracleFail> {
                         return fail(i, "disconnected-without-connected", format!("client {} reported disconnected without being connected", id));
                     }
                     how.remove(&(s.clone(), id));
+                    reported.retain(|k, _| k.0 != s);
                 }
             }
             "srv-q" if t.len() == 3 => {
@@ -5640,6 +5780,13 @@ fn oracle_table(ops: &[String], outs: &[String]) -> Option<OracleFail> {
                             if field(o, "ud").map(|u| u != ud.as_str()).unwrap_or(false) {
                                 return fail(i, "lookup-mismatch", format!("user_data({}) = {:?}…, the session was reported connected with {}…", id, field(o, "ud"), ud));
                             }
+                        }
+                        // the addresses reported for different connected ids are pairwise distinct
+                        if let (true, Some(a)) = (c.contains(&id), field(o, "addr")) {
+                            if let Some(((_, other), _)) = reported.iter().find(|((s2, id2), a2)| *s2 == s && *id2 != id && c.contains(id2) && a2.as_str() == a) {
+                                return fail(i, "duplicate-address", format!("client_addr({}) and client_addr({}) both report {}", id, other, a));
+                            }
+                            reported.insert((s.clone(), id), a.to_string());
                         }
                         if !c.contains(&id) && field(o, "ud").map(|u| u != "-").unwrap_or(false) {
                             return fail(i, "lookup-mismatch", format!("user_data({}) = {:?} for a client that is not connected", id, field(o, "ud")));
